@@ -36,6 +36,13 @@ CHECKS = {
  "C12": dict(engine="world", technique="model-based property testing: share over one puppet with 1..3 probes against a reference-count model",
              text="Generated attach/detach/pull orders interleaved with source data/end/error; oracle: a fresh upstream exactly when a sink attaches while none is attached, never two live upstreams, fan-out equals what was emitted while attached, one upstream Pull per sink Pull, upstream disposed exactly in the detach that empties the list.", ref="DESIGN.md §4 C12",
              note=WORLD_NOTE + " With 2+ probes the puppet never answers a Pull synchronously (the property's quantifier excludes nested fan-out; that case is generated for C02/C03 instead)."),
+ "C13": dict(engine="world", technique="metamorphic property testing: a two-subscription interleaved run projected onto each subscription must equal that subscription's solo run, event for event",
+             text="Generated operator (any but share, also nested one level, and from_iter), two probes with independent scripts and a generated interleaving; the oracle re-runs each subscription alone and compares the normalised projections including closure calls and Iterator::next/clone calls; foreign events inside a subscription's steps are reported as cross-talk.", ref="DESIGN.md §4 C13"),
+ "C14": dict(engine="world", technique="property-based testing with a counting invariant over every prefix: Data <= Pulls at the sink, and outstanding demand is always in flight at some upstream",
+             text="Pullable puppets (one answer per Pull, inside the call or deferred) and credit-respecting sinks over from_iter/map/filter/scan/take/skip/concat!/flatten and two-level compositions; invariants evaluated at every delivery and after every top-level step.", ref="DESIGN.md §4 C14",
+             note=WORLD_NOTE + " take is not placed under concat!/flatten here: it ends unasked after its nth item, so its output does not satisfy the premise the property puts on upstreams."),
+ "C15": dict(engine="world", technique="property-based testing: from_iter over a call-counting iterator (empty, finite up to 64, unbounded) under generated pull/dispose patterns, with nesting-depth and next()-count invariants",
+             text="Oracle: items in iterator order, no Data/Terminate delivery begins inside a Data delivery, next() never ahead of Pulls, next() calls == items + completion, every idle Pull answered before it returns, exactly one completion, silence and no next() after disposal.", ref="DESIGN.md §4 C15"),
 }
 
 def main():
